@@ -94,7 +94,7 @@ Handle(e) ==
     [] e.e = "sk" -> HSk(e)
     [] e.e = "env" -> IF e.op = "stream" THEN okp' = okp \cup {e.pid} /\ UNCHANGED <<kcfg, know, kc, kq, kfd>> /\ Acc ELSE Skip
     [] e.e = "cbb" -> HCbb(e)
-    [] e.e = "crash" -> Stop
+    [] e.e = "crash" -> Rej("c17.crash." \o e.sum)     \* a sanitizer report or abnormal end inside a history of this family
     [] OTHER -> Skip
 
 Verdict2 == [verdict |-> IF bad /\ why.label # "" THEN "REJ" ELSE "ACC", id |-> hid, line |-> why.line, label |-> why.label]
